@@ -84,7 +84,12 @@ impl<'s> ParseState<'s> {
         let s = content;
         let s = if s.len() >= u32::MAX as usize {
             log::error!("Source code too long. Truncated to `u32::MAX - 1` .");
-            &s[..(u32::MAX as usize - 1)]
+            // cut at a character boundary (slicing inside a character would panic)
+            let mut end = u32::MAX as usize - 1;
+            while !s.is_char_boundary(end) {
+                end -= 1;
+            }
+            &s[..end]
         } else {
             s
         };
